@@ -24,10 +24,13 @@ META = {
                   "(kill, kill_all, host off, its kill time, exit(), daemon rule, deadlock); an actor with one kill time is not alive after it; "
                   "victims of a served kill terminate at that date and never return from a call afterwards; a suspended actor returns from no "
                   "call until resumed, its exec lasts at least flops/speed + the suspended time and has the same remaining work at both ends "
-                  "of the suspension; a reboot re-creates exactly the actors that asked for auto-restart.",
+                  "of the suspension. Auto-restart after a reboot is part of the generated programs (the restarted incarnations obey the same rules, "
+                  "their inherited callbacks included) but the statement has no clause on which actors a reboot re-creates: that is only counted "
+                  "(restart.*, anomaly.restart.*).",
     "level_note": "Sequential kernel only (contexts/nthreads 1, default factory). Host 0 is never turned off and only its actors reboot hosts. "
                   "set_kill_time/daemonize/set_auto_restart/on_exit are issued by an actor on itself or by main() before the run (issuing them on "
-                  "another actor races with its clean-up). What a suspended *sleep* does (SimGrid lets the timer run and holds the wake-up) is not "
+                  "another actor races with its clean-up). Suspend and resume requests on one target whose call windows overlap in the log (same "
+                  "scheduling round) leave the target's state undecided: nothing is demanded of it until the next unambiguous request. What a suspended *sleep* does (SimGrid lets the timer run and holds the wake-up) is not "
                   "judged: only 'returns from no call until resumed' is. Several kill times on one actor: the statement is silent on which one "
                   "wins, only 'not alive after the latest' is required. Inherited on_exit callbacks of restarted actors: at most once each, "
                   "after the own ones. Plain and ASan+UBSan flavours.",
@@ -44,7 +47,7 @@ META = {
 
 
 def run_one(fl, sc):
-    exe = build.harness("lifecycle.cpp", fl)
+    exe = build.harness("lifecycle.cpp", fl, internal=True)
     # Under ASan a ForcefulKillException unwinding on a swapped (raw/boost) actor stack makes the sanitizer report inside its own
     # sigaltstack interceptor ("ASan is ignoring requested __asan_handle_no_return ... false positive error reports may follow"):
     # the sanitized runs therefore use the thread context factory, whose actor stacks ASan knows about.
@@ -71,12 +74,15 @@ def crash_key(out):
         elif e.kind == "T":
             pend.pop(int(e.f[0]), None)
     last = evs[-1].clk if evs else 0.0
+    zombies = {int(z.f[0]) for z in oracle.zombies_of(evs)}
     for q in pend.values():
         if q.f[2] == "suspend" and oracle.same(q.clk, last):
             t = pend.get(int(q.f[3]))
             if t is not None and t.f[2] in ("exec", "execd"):
                 ms = [x for x in evs if x.kind == "M" and int(x.f[0]) == int(t.f[0]) and x.i > t.i]
-                if not ms or oracle.same(ms[0].clk, last):
+                # the Exec of the target has no running action: start() not issued yet, issued in this very round, or issued by an
+                # actor that was already marked to die (its simcalls are dropped: the kernel monitor logged it as ZB)
+                if not ms or oracle.same(ms[0].clk, last) or int(t.f[0]) in zombies:
                     return "C11:crash:suspend-reaches-exec-not-started"
     terms = {int(e.f[0]) for e in evs if e.kind == "T"}
     for pid, ks in armed.items():
@@ -110,12 +116,12 @@ def judge(ctx, fl, sc, res):
 
 
 def run(ctx):
-    n = ctx.size(260, 6000)
+    n = ctx.size(220, 6000)
     scs = [("directed", s) for s in gen.DIRECTED] + [("known", s) for s in gen.KNOWN] + [("gen", gen.gen(ctx.sub_rng(i))) for i in range(n)]
     ctx.sample({"directed[0]": gen.to_text(gen.DIRECTED[0])})
     ctx.sample({"generated[0]": gen.to_text(scs[len(gen.DIRECTED) + len(gen.KNOWN)][1])})
     for fl in ("hooks", "asan"):
-        build.harness("lifecycle.cpp", fl)
+        build.harness("lifecycle.cpp", fl, internal=True)
     nasan = max(10, n // 20)
     jobs = [("hooks", k, s) for k, s in scs] + [("asan", k, s) for k, s in scs[:len(gen.DIRECTED)] + scs[len(gen.DIRECTED) + len(gen.KNOWN):][:nasan]]
 
